@@ -68,7 +68,7 @@ VerdictsAgree == verdict # "?" => \A s \in 1..Len(StyleSeq) :
                    LET fe == FrontEnd(Render(prog, StyleSeq[s])) IN fe.conv => (fe.v.ok = (verdict = "accept"))
 \* what the parser builds from an accepted program's text is the program
 ParseRenderIsIdentity == (verdict = "accept" /\ NoRaw(prog)) => \A s \in 1..Len(StyleSeq) :
-                   LET fe == FrontEnd(Render(prog, StyleSeq[s])) IN (fe.conv /\ fe.v.ok) => (fe.v.tree.rest = <<>> /\ ToQuery(fe.v.tree.first) = NormQ(prog))
+                   LET fe == FrontEnd(Render(prog, StyleSeq[s])) IN (fe.conv /\ fe.v.ok) => (fe.v.tree.rest = <<>> /\ Same(ToQuery(fe.v.tree.first), prog))
 \* not vacuous: how many texts were converted and parsed
 ExportFront == verdict # "?" => PrintT(ToJson([front |-> [s \in 1..Len(StyleSeq) |-> FrontEnd(Render(prog, StyleSeq[s])).conv], accept |-> verdict = "accept"]))
 =============================================================================
